@@ -205,6 +205,33 @@ def correspondence(rep, ctx):
             if mo[0] != "ok" or abs(qf - mo[1]) > Fraction(1, 10**14) * abs(mo[1]):
                 fail(desc, f"stores {float(qf)!r} atoms (x ln2 for activity); the amount read to 15 digits gives {mo[1] and float(mo[1])!r}")
     rep.corr["exhaustive"] = thorough
+    # ---- one dictionary naming several nuclides of very different atomic mass / decay constant: each is converted with its
+    #      OWN constants (constructor, add, subtract; both classes)
+    for C in (rd.Inventory, rd.InventoryHP):
+        for u in ("g", "kg", "pg", "mol", "Bq", "Ci"):
+            for group in (("H-3", "U-238", "Co-60"), ("Cs-137", "C-14"), ("Tc-99m", "Pu-239", "Be-10", "I-131")):
+                amts = {nm: 1.5 + 0.25 * k_ for k_, nm in enumerate(group)}
+                conv = rd.converters.UnitConverterFloat
+                rd_ = (lambda inv_: inv_.activities(u) if u in conv.activity_units else inv_.masses(u) if u in conv.mass_units else inv_.moles(u))
+                for via in ("ctor", "add", "subtract"):
+                    desc = f"{C.__name__} {via} {amts!r} {u!r}"
+                    rep.case(("multi-nuclide-dict", C.__name__, u, group, via))
+                    rep.dist("multi-nuclide-dictionary")
+                    try:
+                        if via == "ctor":
+                            inv = C(dict(amts), u)
+                            want = {nm: F(a) for nm, a in amts.items()}
+                        else:
+                            inv = C({nm: 10.0 for nm in group}, u)
+                            getattr(inv, via)(dict(amts), u)
+                            want = {nm: F(10.0) + (F(a) if via == "add" else -F(a)) for nm, a in amts.items()}
+                        got = rd_(inv)
+                        for nm in group:
+                            if abs(F(got[nm]) - want[nm]) > 16 * ULP * abs(want[nm]):
+                                fail(desc, f"{nm} reads back {got[nm]!r} {u}, expected {float(want[nm])!r}")
+                                break
+                    except Exception as e:  # noqa: BLE001
+                        fail(desc, f"raised {type(e).__name__}: {e}")
     # ---- subtract() of a nuclide the inventory does not hold: its reading in the unit of the input is 0 - q (both classes)
     for C in (rd.Inventory, rd.InventoryHP):
         for nm, u, q in (("Co-60", "Bq", 2.5), ("Cs-137", "g", 4.0), ("Sr-90", "mmol", 0.125), ("H-3", "num", 7.0), ("Ra-226", "Ci", 1.5)):
